@@ -20,7 +20,15 @@ TEXT-SOURCE = {'k':'str','s':STRING} | {'k':'here','lines':[pieces]} | {'k':'fil
 TRANSFORMER = [ ['upper']|['lower']|['strip']|['strip-nl']|['strip-sp']|['repl',a,b]|['id']|['run',PROGRAM,ignore] ]
 INSTR = {'k':'run','ignore','p'} | {'k':'sys','cfg','args','last'} | {'k':'shell','cfg','sh'} | {'k':'cd','rel','name'}
       | {'k':'from','what','p','claim','via'}
-SHELL = {'words': [[[style u|s|d, pieces]]], 'seps': [blank strings], 'trail': blank string}
+      | {'k':'filefrom','rel':'tmp'|'cd','name','chan','ignore','p'}     file PATH = -stdout-from|-stderr-from PROGRAM
+      (+ 'local_defs': bool - the `def program` lines of the instruction's chain stand directly before it, in its
+       own phase, instead of in [setup])
+head 'sys': 'variant' plain | soft | sym  (how the name of the program after % is written)
+act (file / source): 'via' conf | suite | cli  - where the actor is configured ([conf] of the case, [conf] of
+      exactly.suite in the same directory, --actor COMMAND-LINE (source interpreter only, literal arguments))
+SHELL = {'words': [[[style u|s|d|c, pieces]]], 'seps': [blank strings], 'trail': blank string, 'pre', 'post'}
+        (style c = command substitution $(echo WORD); pre / post = shell syntax around the command that leaves its
+         arguments, exit code and output unchanged: `true && `, `: ; `, `X=1 ` / ` # comment`, `; exit $?`)
 
 Independent of the code under test (no exactly_lib import).
 """
@@ -46,7 +54,7 @@ LINE_ALPHABET = list('abAB \té0\'"')
 STRING_SYMS = ['S1', 'S2']
 LIST_SYMS = ['L1', 'L2']
 PATH_SYMS = ['Q1', 'Q2', 'Q3', 'Q4']
-ALL_SYM_NAMES = STRING_SYMS + LIST_SYMS + PATH_SYMS + ['SW', 'EXE_PATH']
+ALL_SYM_NAMES = STRING_SYMS + LIST_SYMS + PATH_SYMS + ['SW', 'EXE_PATH', 'PY_SYM']
 PATH_DEFS = {'Q1': ('home', 'data/f1.txt'), 'Q2': ('act', 'adir'), 'Q3': ('cd', 'cfile'), 'Q4': ('tmp', 'tfile'),
              'EXE_PATH': ('home', 'bin/probe')}
 
@@ -154,8 +162,10 @@ SHELL_DOUBLE = list("ab XY01 \t'*|&;#<>(){}[]?~=-")
 def shell_word(draw):
     segs = []
     for _ in range(draw(st.integers(1, 3))):
-        sty = draw(st.sampled_from(['u', 'u', 's', 'd']))
-        if sty == 'u':
+        sty = draw(st.sampled_from(['u', 'u', 'u', 'u', 's', 's', 'd', 'd', 'c']))
+        if sty == 'c':
+            segs.append(['c', [['t', draw(st.sampled_from(SIMPLE_WORDS))]]])
+        elif sty == 'u':
             if draw(st.integers(0, 5)) == 0:
                 segs.append(['u', [['r', 'SW']]])
             else:
@@ -174,13 +184,16 @@ def shell_word(draw):
 
 
 blank = st.sampled_from([' ', ' ', '  ', '\t', ' \t '])
+SHELL_PRE = ['', '', '', 'true && ', ': ; ', 'X=1 ']
+SHELL_POST = ['', '', '', ' # a comment', '; exit $?', ' && true']
 
 
 @st.composite
 def shell_line(draw, max_words=4):
     words = draw(st.lists(shell_word(), max_size=max_words))
     return {'words': words, 'seps': [draw(blank) for _ in words[1:]],
-            'trail': draw(st.sampled_from(['', '', ' ', '\t']))}
+            'trail': draw(st.sampled_from(['', '', ' ', '\t'])),
+            'pre': draw(st.sampled_from(SHELL_PRE)), 'post': draw(st.sampled_from(SHELL_POST))}
 
 
 # ---- transformers, text sources, programs -----------------------------------------------
@@ -242,6 +255,8 @@ def base_head(draw, exit_strategy=exit_code, kinds=HEAD_KINDS, big=False):
     h = {'k': k, 'cfg': draw(cfg_strategy(exit_strategy, big))}
     if k == 'exe':
         h['variant'] = draw(st.sampled_from(EXE_VARIANTS))
+    if k == 'sys':
+        h['variant'] = draw(st.sampled_from(['plain', 'plain', 'soft', 'PY_SYM']))
     if k == 'shell':
         h['sh'] = draw(shell_line())
     return h
@@ -272,6 +287,8 @@ def chain(draw, prefix, exit_strategy=exit_code, kinds=HEAD_KINDS, max_depth=3, 
     if depth == 0:
         return {'defs': [], 'use': base}
     simple = base['head']['k'] == 'shell'
+    if simple:
+        base['head']['sh']['post'] = ''  # arguments are appended to the command line
     defs = [{'n': '%s1' % prefix, 'p': base}]
     layers = []
     for i in range(depth):
@@ -299,6 +316,7 @@ def symbol_values(draw):
     for n in PATH_SYMS + ['EXE_PATH']:
         vals[n] = {'n': n, 't': 'path', 'rel': PATH_DEFS[n][0], 'name': PATH_DEFS[n][1]}
     vals['SW'] = {'n': 'SW', 't': 'string', 'v': draw(st.sampled_from(SIMPLE_WORDS)), 'q': 'n'}
+    vals['PY_SYM'] = {'n': 'PY_SYM', 't': 'string', 'v': '{PY}', 'q': draw(style)}
     return vals
 
 
@@ -392,8 +410,6 @@ def finish_case(case, symvals, tsymvals):
     _strings_in(case, acc)
     case['tsyms'] = [tsymvals[n] for n in TSYM_NAMES if n in acc]
     finish(case, symvals)
-    if 'pgm' in acc and case.get('files', {}).get('data/f2.txt') == BIG_TEXT:
-        case['files']['data/f2.txt'] = 'f2 small\n'
     return case
 
 
@@ -453,7 +469,13 @@ def interpreter_case(draw):
             act['lines'] = draw(st.lists(st.sampled_from(HARMLESS_SOURCE_LINES), min_size=1, max_size=4))
         else:
             act['pyargs'] = draw(st.lists(arg_value, max_size=3))
-    else:
+    if kind in ('file', 'source'):
+        act['via'] = draw(st.sampled_from(['conf', 'suite', 'cli', 'cli'] if kind == 'source' else
+                                          ['conf', 'conf', 'suite']))
+        if act['via'] == 'cli' and 'iargs' in act:
+            # --actor COMMAND-LINE: shell syntax, no symbols
+            act['iargs'] = [{'k': 'str', 'frs': [['h', [['t', v]]]]} for v in draw(st.lists(arg_value, max_size=3))]
+    if kind == 'null':
         act = {'k': 'null', 'cfg': cfg, 'explicit_actor': True, 'absent': False,
                'lines': draw(st.sampled_from([['% {PY} {PROBE} {OBS}/n0 a'], ['anything at all', '  more'],
                                               ['$ exit 3'], ["unbalanced ' quote"]]))}
@@ -474,10 +496,18 @@ def interpreter_case(draw):
 
 @st.composite
 def instruction(draw, phase, prefix, exit_strategy=mostly_zero):
-    kinds = ['run', 'run', 'run', 'sys', 'shell', 'cd']
+    kinds = ['run', 'run', 'run', 'sys', 'shell', 'cd', 'filefrom']
     if phase == 'assert':
         kinds = kinds + ['from', 'from']
     k = draw(st.sampled_from(kinds))
+    if k == 'filefrom':
+        ignore = draw(st.booleans())
+        failing = draw(st.integers(0, 9)) == 0
+        ch = draw(chain(prefix, exit_code if ignore else (nonzero_exit if failing else st.just(0)), max_depth=2))
+        return ch['defs'], {'k': 'filefrom', 'rel': draw(st.sampled_from(['tmp', 'cd'])), 'name': 'out-%s.txt' % prefix,
+                            'chan': draw(st.sampled_from(['stdout', 'stdout', 'stderr'])), 'ignore': ignore,
+                            'p': ch['use'], 'paren': draw(st.booleans()),
+                            'local_defs': bool(ch['defs']) and draw(st.booleans())}
     if k == 'cd':
         return [], draw(cd_instr)
     if k == 'sys':
@@ -489,11 +519,13 @@ def instruction(draw, phase, prefix, exit_strategy=mostly_zero):
     if k == 'run':
         ignore = draw(st.integers(0, 2)) == 0
         ch = draw(chain(prefix, exit_code if ignore else exit_strategy))
-        return ch['defs'], {'k': 'run', 'ignore': ignore, 'p': ch['use']}
+        return ch['defs'], {'k': 'run', 'ignore': ignore, 'p': ch['use'],
+                            'local_defs': bool(ch['defs']) and draw(st.booleans())}
     what = draw(st.sampled_from(['exit', 'stdout', 'stderr']))
     ch = draw(chain(prefix, exit_code if what == 'exit' else st.just(0)))
     cl = draw(claim(what))
-    ins = {'k': 'from', 'what': what, 'p': ch['use'], 'mut': cl['mut'], 'via': cl.get('via')}
+    ins = {'k': 'from', 'what': what, 'p': ch['use'], 'mut': cl['mut'], 'via': cl.get('via'),
+           'local_defs': bool(ch['defs']) and draw(st.booleans())}
     return ch['defs'], ins
 
 
@@ -565,7 +597,7 @@ EXIT_HOSTS = ['act-sys', 'act-shell', 'act-exe', 'act-py', 'act-sym', 'act-file'
               'run-setup', 'run-before-assert', 'run-assert', 'run-cleanup', 'run-ignore-setup', 'run-ignore-assert',
               'sys-setup', 'sys-assert', 'shell-before-assert', 'shell-assert', 'shell-cleanup',
               'from-exit', 'stdin-stdout-from', 'stdin-stdout-from-ignore', 'stdin-stderr-from-ignore',
-              'run-transformer', 'run-transformer-ignore']
+              'run-transformer', 'run-transformer-ignore', 'filefrom', 'filefrom-ignore']
 QUICK_CODES = [0, 1, 2, 3, 32, 64, 65, 126, 127, 128, 129, 130, 200, 254, 255]
 
 
@@ -609,6 +641,10 @@ def exit_case(host, code):
     elif host == 'from-exit':
         base['phases'] = {'assert': [{'k': 'from', 'what': 'exit', 'p': _plain_program(code), 'mut': None},
                                      {'k': 'from', 'what': 'exit', 'p': _plain_program(code), 'mut': '%128'}]}
+    elif host.startswith('filefrom'):
+        base['phases'] = {'before-assert': [{'k': 'filefrom', 'rel': 'tmp', 'name': 'out.txt', 'chan': 'stdout',
+                                             'ignore': host.endswith('-ignore'), 'p': _plain_program(code),
+                                             'paren': False}]}
     elif host.startswith('stdin-'):
         chan = 'stderr' if 'stderr' in host else 'stdout'
         base['setup_stdin'] = {'k': 'pgm', 'chan': chan, 'ignore': host.endswith('-ignore'),
